@@ -525,6 +525,57 @@ static void run_ctor_cell(seqx::Runner &R, int how) {
     R.end(true);
 }
 
+// co_return of an lvalue that outlives the coroutine (a data member, an object reached through a reference): the result is a
+// copy; the named object keeps its value, so a second run of the same coroutine delivers the same result
+struct Keeper {
+    std::vector<int> data{4, 5, 6};
+    cocls::async<std::vector<int>> get(int &runs) {
+        runs++;
+        co_return data;
+    }
+};
+static void run_lvalue_return_cell(seqx::Runner &R, int how) {
+    static const char *names[] = {"join", "start().wait", "start(promise)", "future(async)"};
+    std::string d = std::string("co_return-lvalue;how=") + std::to_string(how) + ":" + names[how];
+    R.begin(d);
+    int64_t base = seqx::live_allocs();
+    {
+        int runs = 0;
+        Keeper k;
+        for (int round = 0; round < 2 && !R.case_fail; round++) {
+            std::vector<int> got;
+            switch (how) {
+                case 0: got = k.get(runs).join(); break;
+                case 1: {
+                    cocls::future<std::vector<int>> f = k.get(runs).start();
+                    got = f.wait();
+                    break;
+                }
+                case 2: {
+                    cocls::future<std::vector<int>> f;
+                    cocls::promise<std::vector<int>> p = f.get_promise();
+                    k.get(runs).start(p);
+                    got = f.wait();
+                    break;
+                }
+                default: {
+                    cocls::future<std::vector<int>> f(k.get(runs));
+                    got = f.wait();
+                    break;
+                }
+            }
+            if (got != std::vector<int>{4, 5, 6}) R.fail("async/wrong-delivery", "run %d of a coroutine that co_returns a data member delivered %zu element(s), the member holds three", round, got.size());
+            if (k.data != std::vector<int>{4, 5, 6}) R.fail("async/co_return-consumed-its-operand", "after run %d the object named by co_return holds %zu element(s): it was moved from, not copied", round, k.data.size());
+            R.step();
+        }
+        if (runs != 2) R.fail("async/body-count", "body ran %d times in two runs", runs);
+        R.outcome(1);
+        R.state(seqx::hash_str(d));
+    }
+    if (!R.case_fail && seqx::live_allocs() != base) R.fail("async/frame-balance", "%ld allocations not released", (long)(seqx::live_allocs() - base));
+    R.end(true);
+}
+
 static void refvalue_cells(seqx::Runner &R, int only_how = -1, int only_comp = -1, int only_depth = -1) {
     for (int how = 0; how < 3; how++)
         for (int cm = 0; cm < NCOMPL; cm++)
@@ -547,10 +598,17 @@ void seqx_run(seqx::Runner &R, const std::string &) {
     refvalue_cells(R);
     for (int how = 0; how < 4; how++)
         if (R.next_case()) run_ctor_cell(R, how);
+    for (int how = 0; how < 4; how++)
+        if (R.next_case()) run_lvalue_return_cell(R, how);
 }
 
 void seqx_replay(seqx::Runner &R, const std::string &c) {
     seq_warmup();
+    if (c.rfind("co_return-lvalue;", 0) == 0) {
+        R.next_case();
+        run_lvalue_return_cell(R, atoi(c.c_str() + c.find("how=") + 4));
+        return;
+    }
     if (c.rfind("ctor-form;", 0) == 0) {
         R.next_case();
         run_ctor_cell(R, atoi(c.c_str() + c.find("how=") + 4));
